@@ -1046,6 +1046,59 @@ def get_world(tier, rng):
     _WORLDS[key] = w
     return w
 
+
+# ---------------------------------------------------------------- definitions the macros must reject (DNEG)
+# "For every struct or enum definition ACCEPTED by the derive macros …" (C08–C10): the model's acceptance predicate is
+# DeriveSchema.schema_ok.  Its negative side is tied to the macros by a crate of hand-written one-definition binaries
+# (harness-derive-neg/src/bin/neg_<name>.rs) built with --keep-going: a definition schema_ok refuses must not compile (and the
+# compiler must give the macro's own message), the two positive controls must.  A change that drops one of the macro's
+# validations makes such a definition "accepted", and no round-trip / format statement can hold for it.
+NEG = {'dupidx': ('S(-,-,0,n,[f(0,0,-,d,0,T{u8}),f(0,0,-,d,0,T{u8})])', 'duplicate index numbers'),
+       'dupidx_nb': ('S(m,-,0,n,[f(1,0,-,d,0,T{u8}),f(1,1,-,d,0,T{u8})])', 'duplicate index numbers'),
+       'dupvar': ('E(-,-,0,[v(1,-,-,u,[]),v(1,-,-,u,[])])', 'duplicate index numbers'),
+       'dupvarfield': ('E(-,-,0,[v(0,-,-,n,[f(2,0,-,d,0,T{u8}),f(2,0,-,d,0,T{u8})])])', 'duplicate index numbers'),
+       'transp2': ('S(-,-,1,t,[f(0,0,-,d,0,T{u8}),f(1,0,-,d,0,T{u8})])', 'requires a struct with one field'),
+       'transp_tag': ('S(-,5,1,t,[f(0,0,-,d,0,T{u8})])', 'mutually exclusive'),
+       'io_fields': ('E(-,-,1,[v(0,-,-,u,[]),v(1,-,-,t,[f(0,0,-,d,0,T{u8})])])', 'index_only enums must not have fields'),
+       'io_tag': ('E(-,7,1,[v(0,-,-,u,[])])', 'mutually exclusive'),
+       'pos_struct': ('S(-,-,0,n,[f(0,0,-,d,0,T{u8}),f(2,0,-,d,1,T{opt(u8)})])', None),
+       'pos_enum': ('E(-,-,1,[v(0,-,-,u,[]),v(3,-,-,u,[])])', None)}
+
+def neg_cases(): return ["DNEG %s %s" % (k, NEG[k][0]) for k in sorted(NEG)]
+
+def prepare_neg(root, cache, dep):
+    """build harness-derive-neg with --keep-going and write an executable that answers DNEG cases from the result"""
+    import re, json
+    crate = os.path.join(root, "harness-derive-neg")
+    h = hashlib.sha1()
+    _hash_tree(h, crate); _hash_tree(h, dep); _hash_tree(h, os.path.join(os.path.dirname(dep), "minicbor-derive"))
+    bindir = os.path.join(cache, "derive-bin"); os.makedirs(bindir, exist_ok=True)
+    script = os.path.join(bindir, "derive-neg-" + h.hexdigest()[:16] + ".py")
+    if os.path.exists(script): return True, "neg cached", script
+    shutil.copyfile(os.path.join(os.path.dirname(dep), "Cargo.lock"), os.path.join(crate, "Cargo.lock"))
+    target = os.path.join(cache, "derive-neg-target")
+    env = dict(os.environ, CARGO_NET_OFFLINE="true", CARGO_TARGET_DIR=target)
+    subprocess.run("cargo clean --offline -p minicbor-derive -p harness-derive-neg", shell=True, cwd=crate, env=env, stdout=subprocess.DEVNULL, stderr=subprocess.DEVNULL)
+    try:
+        p = subprocess.run("timeout 1700 cargo build --offline --bins --keep-going --message-format=short 2>&1", shell=True, cwd=crate, env=env,
+                           stdout=subprocess.PIPE, stderr=subprocess.STDOUT, timeout=1800)
+    except subprocess.TimeoutExpired:
+        return False, "cargo build of harness-derive-neg timed out", None
+    out = p.stdout.decode(errors="replace")
+    if "Compiling harness-derive-neg" not in out and "Finished" not in out:
+        return False, "harness-derive-neg: its dependencies do not build: " + out[-800:], None
+    res = {}
+    for k, (_, msg) in NEG.items():
+        failed = re.search(r'could not compile `harness-derive-neg` \(bin "neg_%s"\)' % k, out) is not None
+        errs = [l for l in out.splitlines() if l.startswith("src/bin/neg_%s.rs:" % k) and ": error" in l]
+        built = os.path.exists(os.path.join(target, "debug", "neg_" + k))
+        if not failed and built: res[k] = "accepted"
+        elif msg is not None and any(msg in l for l in errs): res[k] = "rejected"
+        else: res[k] = "rejected-for-another-reason:" + (errs[0].split(": error", 1)[1].strip().replace(" ", "_")[:80] if errs else "no_message")
+    open(script, "w").write("#!/usr/bin/env python3\nimport sys\nR = %s\nout = open(sys.argv[2], 'w')\nfor l in open(sys.argv[1]):\n    t = l.split()\n    out.write((R.get(t[1], '?no-such-definition') if len(t) > 1 and t[0] == 'DNEG' else '?bad-op') + '\\n')\nout.close()\n" % json.dumps(res))
+    os.chmod(script, 0o755)
+    return True, "neg: " + ",".join("%s=%s" % kv for kv in sorted(res.items())), script
+
 # ---------------------------------------------------------------- building the generated crate
 def _hash_tree(h, path):
     for d, _, fs in sorted(os.walk(path)):
@@ -1085,7 +1138,9 @@ def prepare(tier, rng, root, cache):
     bindir = os.path.join(cache, "derive-bin")
     os.makedirs(bindir, exist_ok=True)
     binary = os.path.join(bindir, "harness-derive-" + h.hexdigest()[:16])
-    if os.path.exists(binary): return True, "cached", {"derive": binary}
+    okn, logn, negbin = prepare_neg(root, cache, dep)
+    if not okn: return False, logn, {}
+    if os.path.exists(binary): return True, "cached; " + logn, {"derive": binary, "neg": negbin}
     shutil.copyfile(os.path.join(os.path.dirname(dep), "Cargo.lock"), os.path.join(crate, "Cargo.lock"))
     target = os.path.join(cache, "derive-target")
     env = dict(os.environ, CARGO_NET_OFFLINE="true", CARGO_TARGET_DIR=target)
@@ -1125,16 +1180,24 @@ def prepare(tier, rng, root, cache):
     for old in sorted(os.listdir(bindir), key=lambda f: os.path.getmtime(os.path.join(bindir, f)))[:-6]:
         try: os.remove(os.path.join(bindir, old))
         except OSError: pass
-    return True, "built %d types in %.0fs%s" % (sum(len(s.defs) for s in w.all), time.time() - t0, note), {"derive": binary}
+    return True, "built %d types in %.0fs%s; %s" % (sum(len(s.defs) for s in w.all), time.time() - t0, note, logn), {"derive": binary, "neg": negbin}
 
 def oracle(line, impl):
     """a generated definition (accepted by the documented grammar; compiled by the unchanged macros) that the macros no longer compile"""
+    if line.startswith("DNEG "):
+        k = line.split()[1]
+        if NEG[k][1] is not None and impl == "accepted":
+            return "the derive macros accept a definition the documentation excludes (%s: %s) — no wire-format / round-trip statement can hold for it" % (k, NEG[k][1])
+        if NEG[k][1] is None and impl != "accepted": return "a positive control of the rejection test does not compile: " + impl
+        return None
     if impl.startswith("?no-type"):
         return "this type definition no longer compiles with the derive macros (schema %s)" % " ".join(line.split(" ")[1:3])[:300]
     return None
 
 def route(line):
-    return "derive" if line.split(" ", 1)[0] in ("DENC", "DLEN", "DDEC", "DRT", "DCOMPAT", "DMETA") else "main"
+    op = line.split(" ", 1)[0]
+    if op == "DNEG": return "neg"
+    return "derive" if op in ("DENC", "DLEN", "DDEC", "DRT", "DCOMPAT", "DMETA") else "main"
 
 # ---------------------------------------------------------------- case streams
 def cap_for(tier, fields):
